@@ -529,7 +529,7 @@ def _has_dotstar(body):
 
 SECRETS = ('abc', 'p@ss^w0rd$', 'x', 'S3cr3t!', 'a.b*c+d?', '(x)[y]{z}',
            'back\\slash', 'ünï', 'tab|pipe&amp;', '%s%d', 'a:b;c,d', '-abc',
-           '--x')
+           '--x', 'abc\\', '-')
 THOROUGH_SECRETS = (
     '!#$%&()*+,-./:;<=>?@[\\]^_`{|}~'.replace('<', '').replace('=', ''),
     'A' * 40, '0123456789' * 4, 'pa$$w0rd-with_a_very/long+tail~of.40chars',
